@@ -26,13 +26,13 @@ def bits(mask, n):
 
 
 def dv(p):
-    v = VK[p["vk"]] if p.get("hasval") == 1 else "VNull"
-    return "{| dv_value := %s; dv_good := %s |}" % (v, b(p.get("stbad") == 0))
+    v = VK[p["vk"]] if p["hasval"] == 1 else "VNull"
+    return "{| dv_value := %s; dv_good := %s |}" % (v, b(p["stbad"] == 0))
 
 
 def model_term(c):
     """Coq term of type nat*nat*nat: the model's (outcome code, values, errors) for the case."""
-    op, p, L = c["op"], c.get("p") or {}, c.get("l") or []
+    op, p, L = c["op"], collections.defaultdict(int, c.get("p") or {}), c.get("l") or []
     k = KIND[p.get("kind", 0)]
     if op == "attr":
         return "oc (impl_node_helper %s %s %d %s)" % (HELPER[p["helper"]], k, p["nres"], dv(p))
@@ -91,7 +91,7 @@ def shape_key(c):
 
 
 def run(ctx):
-    n = 2400 if ctx.thorough() else 540
+    n = 2400 if ctx.thorough() else 560
     proof_ok, detail = True, {}
     ok, out = ctx.regen(["clientsites"])
     if not ok:
